@@ -14,34 +14,35 @@ structure Ctl (w w' : W) : Prop where
   stopSignal : w'.stopSignal = w.stopSignal
   stopped : w'.stopped = w.stopped
   drain : w'.drain = w.drain
+  inbox : w'.inbox = w.inbox
 
-theorem Ctl.refl (w : W) : Ctl w w := ⟨rfl, rfl, rfl⟩
+theorem Ctl.refl (w : W) : Ctl w w := ⟨rfl, rfl, rfl, rfl⟩
 theorem Ctl.trans {a b c : W} (h1 : Ctl a b) (h2 : Ctl b c) : Ctl a c :=
-  ⟨h2.stopSignal.trans h1.stopSignal, h2.stopped.trans h1.stopped, h2.drain.trans h1.drain⟩
+  ⟨h2.stopSignal.trans h1.stopSignal, h2.stopped.trans h1.stopped, h2.drain.trans h1.drain, h2.inbox.trans h1.inbox⟩
 
 theorem ctl_availChange (w : W) (wid : Nat) (b : Bool) : Ctl w (w.availChange wid b) := by
   unfold W.availChange; split
-  · split <;> exact ⟨rfl, rfl, rfl⟩
-  · exact ⟨rfl, rfl, rfl⟩
+  · split <;> exact ⟨rfl, rfl, rfl, rfl⟩
+  · exact ⟨rfl, rfl, rfl, rfl⟩
 
 theorem ctl_choose (w : W) (j : Job) (hint : Option Nat) : Ctl w (w.chooseTargetWorker j hint).2 := by
   unfold W.chooseTargetWorker
   split
   · split
-    · exact ⟨rfl, rfl, rfl⟩
+    · exact ⟨rfl, rfl, rfl, rfl⟩
     · split
-      · exact ⟨rfl, rfl, rfl⟩
-      · split <;> exact ⟨rfl, rfl, rfl⟩
-  · split <;> exact ⟨rfl, rfl, rfl⟩
+      · exact ⟨rfl, rfl, rfl, rfl⟩
+      · split <;> exact ⟨rfl, rfl, rfl, rfl⟩
+  · split <;> exact ⟨rfl, rfl, rfl, rfl⟩
   · split
-    · exact ⟨rfl, rfl, rfl⟩
+    · exact ⟨rfl, rfl, rfl, rfl⟩
     · split
-      · exact ⟨rfl, rfl, rfl⟩
-      · split <;> exact ⟨rfl, rfl, rfl⟩
+      · exact ⟨rfl, rfl, rfl, rfl⟩
+      · split <;> exact ⟨rfl, rfl, rfl, rfl⟩
   · split
-    · exact ⟨rfl, rfl, rfl⟩
-    · split <;> exact ⟨rfl, rfl, rfl⟩
-  · split <;> exact ⟨rfl, rfl, rfl⟩
+    · exact ⟨rfl, rfl, rfl, rfl⟩
+    · split <;> exact ⟨rfl, rfl, rfl, rfl⟩
+  · split <;> exact ⟨rfl, rfl, rfl, rfl⟩
 
 theorem ctl_routeInner (w : W) (j : Job) (hint : Option Nat) : Ctl w (w.routeInner j hint).2 := by
   unfold W.routeInner
@@ -56,7 +57,7 @@ theorem ctl_routeInner (w : W) (j : Job) (hint : Option Nat) : Ctl w (w.routeInn
       simp only
       cases hg : getW w1.pool wid with
       | none => exact hs
-      | some p => exact hs.trans ⟨rfl, rfl, rfl⟩
+      | some p => exact hs.trans ⟨rfl, rfl, rfl, rfl⟩
 
 theorem ctl_routeLimited (w : W) (j : Job) (hint : Option Nat) : Ctl w (w.routeLimited j hint).2 := by
   unfold W.routeLimited
@@ -64,7 +65,7 @@ theorem ctl_routeLimited (w : W) (j : Job) (hint : Option Nat) : Ctl w (w.routeL
   · exact ctl_routeInner w j hint
   · rename_i c lb _
     simp only
-    have h0 : Ctl w { w with rl := some (c, (LeakyBucket.check c lb w.env.now).1) } := ⟨rfl, rfl, rfl⟩
+    have h0 : Ctl w { w with rl := some (c, (LeakyBucket.check c lb w.env.now).1) } := ⟨rfl, rfl, rfl, rfl⟩
     split
     · split
       · split
@@ -78,14 +79,14 @@ theorem ctl_routeLimited (w : W) (j : Job) (hint : Option Nat) : Ctl w (w.routeL
         rw [hr] at hi
         simp only at hi ⊢
         split
-        · exact h0.trans (hi.trans ⟨rfl, rfl, rfl⟩)
+        · exact h0.trans (hi.trans ⟨rfl, rfl, rfl, rfl⟩)
         · exact h0.trans hi
 
 theorem ctl_routeMessage (w : W) (j : Job) (hint : Option Nat) : Ctl w (w.routeMessage j hint).2 := by
   unfold W.routeMessage
   have hi := ctl_routeLimited w j hint
   cases hr : w.routeLimited j hint with
-  | mk r w2 => rw [hr] at hi; exact hi.trans ⟨rfl, rfl, rfl⟩
+  | mk r w2 => rw [hr] at hi; exact hi.trans ⟨rfl, rfl, rfl, rfl⟩
 
 theorem ctl_dropExpiredHead (fuel : Nat) (w : W) : Ctl w (W.dropExpiredHead fuel w) := by
   induction fuel generalizing w with
@@ -96,7 +97,7 @@ theorem ctl_dropExpiredHead (fuel : Nat) (w : W) : Ctl w (W.dropExpiredHead fuel
     · split
       · split
         · refine Ctl.trans ?_ (ih _)
-          exact ⟨rfl, rfl, rfl⟩
+          exact ⟨rfl, rfl, rfl, rfl⟩
         · exact Ctl.refl w
       · exact Ctl.refl w
     · exact Ctl.refl w
@@ -123,7 +124,7 @@ theorem ctl_routeLoop (hint : Option Nat) (fuel : Nat) (w : W) : Ctl w (W.routeL
           | some jq =>
             obtain ⟨j', q⟩ := jq
             simp only
-            have h1 : Ctl w { w1 with queue := q } := hs.trans ⟨rfl, rfl, rfl⟩
+            have h1 : Ctl w { w1 with queue := q } := hs.trans ⟨rfl, rfl, rfl, rfl⟩
             have hr := ctl_routeMessage { w1 with queue := q } j' (some worker)
             cases hrm : W.routeMessage { w1 with queue := q } j' (some worker) with
             | mk r w2 =>
@@ -133,10 +134,10 @@ theorem ctl_routeLoop (hint : Option Nat) (fuel : Nat) (w : W) : Ctl w (W.routeL
               | rateLimited =>
                 simp only
                 refine (h1.trans hr).trans (Ctl.trans ?_ (ih _))
-                exact ⟨rfl, rfl, rfl⟩
+                exact ⟨rfl, rfl, rfl, rfl⟩
               | backlog =>
                 simp only
-                exact (h1.trans hr).trans ⟨rfl, rfl, rfl⟩
+                exact (h1.trans hr).trans ⟨rfl, rfl, rfl, rfl⟩
 
 theorem ctl_tryRoute (w : W) (hint : Option Nat) : Ctl w (w.tryRouteNextActiveJob hint) := by
   unfold W.tryRouteNextActiveJob
@@ -150,18 +151,18 @@ theorem ctl_shedQueueOldest (limit fuel : Nat) (w : W) : Ctl w (W.shedQueueOldes
     split
     · split
       · refine Ctl.trans ?_ (ih _)
-        exact ⟨rfl, rfl, rfl⟩
+        exact ⟨rfl, rfl, rfl, rfl⟩
       · exact ih w
     · exact Ctl.refl w
 
 theorem ctl_maybeEnqueue (w : W) (j : Job) : Ctl w (w.maybeEnqueue j) := by
   unfold W.maybeEnqueue
   split
-  · split <;> exact ⟨rfl, rfl, rfl⟩
+  · split <;> exact ⟨rfl, rfl, rfl, rfl⟩
   · dsimp only
     refine Ctl.trans ?_ (ctl_shedQueueOldest _ _ _)
-    exact ⟨rfl, rfl, rfl⟩
-  · exact ⟨rfl, rfl, rfl⟩
+    exact ⟨rfl, rfl, rfl, rfl⟩
+  · exact ⟨rfl, rfl, rfl, rfl⟩
 
 theorem ctl_growOne (w : W) (wid : Nat) : Ctl w (w.growOne wid) := by
   unfold W.growOne
@@ -169,11 +170,11 @@ theorem ctl_growOne (w : W) (wid : Nat) : Ctl w (w.growOne wid) := by
   · dsimp only
     split
     · apply Ctl.trans _ (ctl_availChange _ _ _)
-      exact ⟨rfl, rfl, rfl⟩
-    · exact ⟨rfl, rfl, rfl⟩
+      exact ⟨rfl, rfl, rfl, rfl⟩
+    · exact ⟨rfl, rfl, rfl, rfl⟩
   · dsimp only
     apply Ctl.trans _ (ctl_availChange _ _ _)
-    exact ⟨rfl, rfl, rfl⟩
+    exact ⟨rfl, rfl, rfl, rfl⟩
 
 theorem ctl_foldl {f : W → Nat → W} (hf : ∀ w k, Ctl w (f w k)) (l : List Nat) (w : W) : Ctl w (l.foldl f w) := by
   induction l generalizing w with
@@ -187,8 +188,8 @@ theorem ctl_shrinkOne (w : W) (wid : Nat) : Ctl w (w.shrinkOne wid) := by
   unfold W.shrinkOne
   split
   · split
-    · exact ⟨rfl, rfl, rfl⟩
-    · exact (ctl_availChange w wid false).trans ⟨rfl, rfl, rfl⟩
+    · exact ⟨rfl, rfl, rfl, rfl⟩
+    · exact (ctl_availChange w wid false).trans ⟨rfl, rfl, rfl, rfl⟩
   · exact Ctl.refl w
 
 theorem ctl_shrinkPool (w : W) (n : Nat) : Ctl w (w.shrinkPool n) := by
@@ -213,15 +214,15 @@ theorem ctl_resizePool (w : W) (n : Nat) : Ctl w (w.resizePool n) := by
   · simp only
     split
     · apply Ctl.trans _ (ctl_flushAfterGrow _ _)
-      exact (ctl_growPool w _).trans ⟨rfl, rfl, rfl⟩
+      exact (ctl_growPool w _).trans ⟨rfl, rfl, rfl, rfl⟩
     · split
-      · exact (ctl_shrinkPool w _).trans ⟨rfl, rfl, rfl⟩
-      · exact ⟨rfl, rfl, rfl⟩
+      · exact (ctl_shrinkPool w _).trans ⟨rfl, rfl, rfl, rfl⟩
+      · exact ⟨rfl, rfl, rfl, rfl⟩
 
 theorem ctl_dispatch (w : W) (j : Job) : Ctl w (w.dispatch j) := by
   unfold W.dispatch
   split
-  · exact ⟨rfl, rfl, rfl⟩
+  · exact ⟨rfl, rfl, rfl, rfl⟩
   · split
     · have hr := ctl_routeMessage w j none
       cases hrm : w.routeMessage j none with
@@ -229,9 +230,9 @@ theorem ctl_dispatch (w : W) (j : Job) : Ctl w (w.dispatch j) := by
         rw [hrm] at hr
         cases r with
         | handled => exact hr
-        | rateLimited => exact hr.trans ⟨rfl, rfl, rfl⟩
+        | rateLimited => exact hr.trans ⟨rfl, rfl, rfl, rfl⟩
         | backlog => exact hr.trans (ctl_maybeEnqueue w2 j)
-    · exact ⟨rfl, rfl, rfl⟩
+    · exact ⟨rfl, rfl, rfl, rfl⟩
 
 theorem ctl_ite (c : Prop) [Decidable c] (w a b : W) (ha : Ctl w a) (hb : Ctl w b) : Ctl w (if c then a else b) := by
   split <;> assumption
@@ -243,10 +244,10 @@ theorem ctl_workerFinishedJob (w : W) (who key : Nat) : Ctl w (w.workerFinishedJ
     cases hwc : p.workerComplete w.env key with
     | mk p' e' =>
       simp only
-      have h1 : Ctl w { w with pool := setW w.pool who p', env := e' } := ⟨rfl, rfl, rfl⟩
+      have h1 : Ctl w { w with pool := setW w.pool who p', env := e' } := ⟨rfl, rfl, rfl, rfl⟩
       split
       · split
-        · exact ⟨rfl, rfl, rfl⟩
+        · exact ⟨rfl, rfl, rfl, rfl⟩
         · exact h1
       · apply ctl_ite
         · exact (h1.trans (ctl_tryRoute _ _)).trans (ctl_availChange _ _ _)
@@ -256,12 +257,12 @@ theorem ctl_workerFinishedJob (w : W) (who key : Nat) : Ctl w (w.workerFinishedJ
 theorem ctl_removeExpired (w : W) : Ctl w w.removeExpired := by
   unfold W.removeExpired
   split
-  · exact ⟨rfl, rfl, rfl⟩
+  · exact ⟨rfl, rfl, rfl, rfl⟩
   · exact Ctl.refl w
 
 theorem ctl_calcRest (w : W) : Ctl w w.calcRest := by
   unfold W.calcRest
-  exact (ctl_removeExpired w).trans ⟨rfl, rfl, rfl⟩
+  exact (ctl_removeExpired w).trans ⟨rfl, rfl, rfl, rfl⟩
 
 theorem ctl_updateSettings (w : W) (d : Option (Option (Nat × Mode))) (n : Option Nat) : Ctl w (w.updateSettings d n) := by
   unfold W.updateSettings
@@ -270,7 +271,7 @@ theorem ctl_updateSettings (w : W) (d : Option (Option (Nat × Mode))) (n : Opti
       | none => w) := by
     cases d with
     | none => exact Ctl.refl w
-    | some d => exact ⟨rfl, rfl, rfl⟩
+    | some d => exact ⟨rfl, rfl, rfl, rfl⟩
   cases n with
   | none => exact h1
   | some n => exact h1.trans (ctl_resizePool _ n)
@@ -284,7 +285,7 @@ theorem ctl_afterReplace (w : W) (wid : Nat) : Ctl w (w.afterReplace wid) := by
     split at hret
     · split at hret
       · simp only [Option.some.injEq] at hret; subst hret
-        exact ⟨rfl, rfl, rfl⟩
+        exact ⟨rfl, rfl, rfl, rfl⟩
       · simp at hret
     · simp at hret
   | none =>
@@ -306,7 +307,7 @@ theorem ctl_handleSupervisorEvt (w : W) (who : Nat) : Ctl w (w.handleSupervisorE
       | mk p' e' =>
         simp only
         refine Ctl.trans ?_ (ctl_afterReplace _ wid)
-        exact ⟨rfl, rfl, rfl⟩
+        exact ⟨rfl, rfl, rfl, rfl⟩
 
 /-- handling a message never touches the stop signal or the stop state, and never completes a drain -/
 theorem handleMsg_stop (w : W) (m : FMsg) :
@@ -361,6 +362,14 @@ theorem StopInv.same {w w' : W} (h : StopInv w) (c : Ctl w w') (hb : w'.blocked 
   · rw [c.stopSignal]; exact h.drained (by rw [← c.drain]; exact hd)
   · rw [hb, hp, hq]
     exact h.idle (by rw [← c.stopSignal]; exact hs) (by rw [← c.stopped]; exact hst)
+
+theorem StopInv.same3 {w w' : W} (h : StopInv w) (c1 : w'.stopSignal = w.stopSignal) (c2 : w'.stopped = w.stopped)
+    (c3 : w'.drain = w.drain) (hb : w'.blocked = w.blocked)
+    (hp : w'.pool = w.pool) (hq : w'.queue = w.queue) : StopInv w' := by
+  refine ⟨fun hd => ?_, fun hs hst => ?_⟩
+  · rw [c1]; exact h.drained (by rw [← c3]; exact hd)
+  · rw [hb, hp, hq]
+    exact h.idle (by rw [← c1]; exact hs) (by rw [← c2]; exact hst)
 
 /-- the stop machinery is untouched and the signal is down: whatever happened to pool and queue -/
 theorem StopInv.nosignal {w w' : W} (h : StopInv w) (c : Ctl w w') (hs : w.stopSignal = false) : StopInv w' := by
@@ -435,7 +444,7 @@ theorem stopInv_loopStep (w w' : W) (h : StopInv w) (hl : w.loopStep = some w') 
       split at hl
       · rename_i who rest _
         simp only [Option.some.injEq] at hl; subst hl
-        exact h.nosignal (Ctl.trans (b := { w with env := { w.env with sup := rest } }) ⟨rfl, rfl, rfl⟩
+        exact h.nosignal (Ctl.trans (b := { w with env := { w.env with sup := rest } }) ⟨rfl, rfl, rfl, rfl⟩
           (ctl_handleSupervisorEvt _ who)) hs
       · split at hl
         · rename_i m rest _
@@ -451,7 +460,7 @@ theorem stopInv_loopStep (w w' : W) (h : StopInv w) (hl : w.loopStep = some w') 
 theorem stopInv_tryFinishStop (w : W) (h : StopInv w) : StopInv w.tryFinishStop := by
   unfold W.tryFinishStop
   split
-  · exact h.same ⟨rfl, rfl, rfl⟩ rfl rfl rfl
+  · exact h.same3 rfl rfl rfl rfl rfl rfl
   · exact h
 
 theorem stopInv_runQ (fuel : Nat) (w : W) (h : StopInv w) : StopInv (W.runQ fuel w) := by
@@ -464,7 +473,7 @@ theorem stopInv_runQ (fuel : Nat) (w : W) (h : StopInv w) : StopInv (W.runQ fuel
     | none =>
       simp only
       have hs : StopInv (W.tryFinishStop { w with env := w.env.settle }) :=
-        stopInv_tryFinishStop _ (h.same ⟨rfl, rfl, rfl⟩ rfl rfl rfl)
+        stopInv_tryFinishStop _ (h.same ⟨rfl, rfl, rfl, rfl⟩ rfl rfl rfl)
       split
       · exact hs
       · exact ih _ hs
@@ -472,11 +481,11 @@ theorem stopInv_runQ (fuel : Nat) (w : W) (h : StopInv w) : StopInv (W.runQ fuel
 theorem stopInv_send (w : W) (m : FMsg) (h : StopInv w) : StopInv (w.send m) := by
   unfold W.send; split
   · exact h
-  · exact h.same ⟨rfl, rfl, rfl⟩ rfl rfl rfl
+  · exact h.same3 rfl rfl rfl rfl rfl rfl
 
 theorem stopInv_advanceTo (t fuel : Nat) (w : W) (h : StopInv w) : StopInv (W.advanceTo t fuel w) := by
   induction fuel generalizing w with
-  | zero => exact h.same ⟨rfl, rfl, rfl⟩ rfl rfl rfl
+  | zero => exact h.same ⟨rfl, rfl, rfl, rfl⟩ rfl rfl rfl
   | succ fuel ih =>
     unfold W.advanceTo
     split
@@ -484,9 +493,9 @@ theorem stopInv_advanceTo (t fuel : Nat) (w : W) (h : StopInv w) : StopInv (W.ad
       apply ih
       apply stopInv_runQ
       have h1 : StopInv { w.setNow w.nextCalc with nextCalc := t + CALCULATE_FREQUENCY * 1000000 } :=
-        h.same ⟨rfl, rfl, rfl⟩ rfl rfl rfl
+        h.same ⟨rfl, rfl, rfl, rfl⟩ rfl rfl rfl
       exact stopInv_send _ _ h1
-    · exact h.same ⟨rfl, rfl, rfl⟩ rfl rfl rfl
+    · exact h.same ⟨rfl, rfl, rfl, rfl⟩ rfl rfl rfl
 
 theorem stopInv_finish (w : W) (aid : Nat) (ok : Bool) (h : StopInv w) : StopInv (w.finish aid ok) := by
   unfold W.finish
@@ -501,13 +510,13 @@ theorem stopInv_finish (w : W) (aid : Nat) (ok : Bool) (h : StopInv w) : StopInv
       split
       · exact h
       · split
-        · exact h.same ⟨rfl, rfl, rfl⟩ rfl rfl rfl
+        · exact h.same ⟨rfl, rfl, rfl, rfl⟩ rfl rfl rfl
         · have h1 : StopInv { w with env := (w.env.emit (.finishOk aid)).emit (.handled aid j.id) } :=
-            h.same ⟨rfl, rfl, rfl⟩ rfl rfl rfl
+            h.same ⟨rfl, rfl, rfl, rfl⟩ rfl rfl rfl
           have h2 := stopInv_send _ (.finished a.wid j.key) h1
-          exact h2.same ⟨rfl, rfl, rfl⟩ rfl rfl rfl
+          exact h2.same ⟨rfl, rfl, rfl, rfl⟩ rfl rfl rfl
 
-theorem stopInv_emit (w : W) (ev : Ev) (h : StopInv w) : StopInv (w.emit ev) := h.same ⟨rfl, rfl, rfl⟩ rfl rfl rfl
+theorem stopInv_emit (w : W) (ev : Ev) (h : StopInv w) : StopInv (w.emit ev) := h.same ⟨rfl, rfl, rfl, rfl⟩ rfl rfl rfl
 
 theorem stopInv_applyOp (w : W) (op : Op) (h : StopInv w) : StopInv (w.applyOp op) := by
   cases op with
@@ -517,7 +526,7 @@ theorem stopInv_applyOp (w : W) (op : Op) (h : StopInv w) : StopInv (w.applyOp o
     · exact h
     · exact stopInv_send _ _ (stopInv_emit _ _ h)
   | finish aid ok => exact stopInv_finish w aid ok h
-  | kill aid => exact h.same ⟨rfl, rfl, rfl⟩ rfl rfl rfl
+  | kill aid => exact h.same ⟨rfl, rfl, rfl, rfl⟩ rfl rfl rfl
   | resize n => exact stopInv_send _ _ (stopInv_emit _ _ h)
   | settings d n =>
     simp only [W.applyOp]
@@ -532,7 +541,7 @@ theorem stopInv_applyOp (w : W) (op : Op) (h : StopInv w) : StopInv (w.applyOp o
   | drain => exact stopInv_send _ _ (stopInv_emit _ _ h)
   | setHandler hd => exact stopInv_send _ _ (stopInv_emit _ _ h)
   | advance => exact h
-  | block => exact h.same ⟨rfl, rfl, rfl⟩ rfl rfl rfl
+  | block => exact h.same ⟨rfl, rfl, rfl, rfl⟩ rfl rfl rfl
   | release n =>
     simp only [W.applyOp]
     split
@@ -543,8 +552,8 @@ theorem stopInv_applyOp (w : W) (op : Op) (h : StopInv w) : StopInv (w.applyOp o
           else { w.emit (.released n) with blocked := false })) := by
         refine Ctl.trans ?_ (ctl_calcRest _)
         split
-        · exact Ctl.trans (b := { w.emit (.released n) with blocked := false }) ⟨rfl, rfl, rfl⟩ (ctl_resizePool _ _)
-        · exact ⟨rfl, rfl, rfl⟩
+        · exact Ctl.trans (b := { w.emit (.released n) with blocked := false }) ⟨rfl, rfl, rfl, rfl⟩ (ctl_resizePool _ _)
+        · exact ⟨rfl, rfl, rfl, rfl⟩
       cases hs : w.stopSignal with
       | false =>
         apply stopInv_afterHandle
@@ -580,18 +589,18 @@ theorem stopInv_applyOp (w : W) (op : Op) (h : StopInv w) : StopInv (w.applyOp o
 theorem stopInv_ask (w : W) (m : FMsg) (h : StopInv w) : StopInv (w.ask m) := by
   unfold W.ask
   split
-  · exact h.same ⟨rfl, rfl, rfl⟩ rfl rfl rfl
+  · exact h.same ⟨rfl, rfl, rfl, rfl⟩ rfl rfl rfl
   · simp only
     have h1 := stopInv_runQ RUN_FUEL _ (stopInv_send w m h)
     split
-    · exact h1.same ⟨rfl, rfl, rfl⟩ rfl rfl rfl
+    · exact h1.same ⟨rfl, rfl, rfl, rfl⟩ rfl rfl rfl
     · exact h1
 
 theorem stopInv_queries (w : W) (h : StopInv w) : StopInv w.queries := by
   unfold W.queries
   split
-  · exact h.same ⟨rfl, rfl, rfl⟩ rfl rfl rfl
-  · exact stopInv_ask _ _ (stopInv_ask _ _ (stopInv_ask _ _ (h.same ⟨rfl, rfl, rfl⟩ rfl rfl rfl)))
+  · exact h.same ⟨rfl, rfl, rfl, rfl⟩ rfl rfl rfl
+  · exact stopInv_ask _ _ (stopInv_ask _ _ (stopInv_ask _ _ (h.same ⟨rfl, rfl, rfl, rfl⟩ rfl rfl rfl)))
 
 theorem stopInv_stepOp (w : W) (op : Op) (t0 tq te : Nat) (h : StopInv w) : StopInv (w.stepOp op t0 tq te) := by
   unfold W.stepOp
@@ -606,7 +615,7 @@ theorem stopInv_stepOp (w : W) (op : Op) (t0 tq te : Nat) (h : StopInv w) : Stop
   have h4 : StopInv w4 := by rw [← hw4]; exact stopInv_queries _ h3
   generalize hw5 : W.advanceTo te (advanceFuel w4 te) w4 = w5
   have h5 : StopInv w5 := by rw [← hw5]; exact stopInv_advanceTo _ _ _ h4
-  have h6 : StopInv { w5 with lastWq := none } := h5.same ⟨rfl, rfl, rfl⟩ rfl rfl rfl
+  have h6 : StopInv { w5 with lastWq := none } := h5.same ⟨rfl, rfl, rfl, rfl⟩ rfl rfl rfl
   exact stopInv_emit _ _ h6
 
 theorem stopInv_runSteps (w : W) (steps : List Step) (h : StopInv w) : StopInv (w.runSteps steps) := by
